@@ -2,7 +2,7 @@
    equate it with (ExtrOcamlBasic only; no Extract Constant). *)
 From Coq Require Extraction.
 From Coq Require Import ExtrOcamlBasic.
-From LibFtp Require Import Bytes Decimal Reply Typed.
+From LibFtp Require Import Bytes Decimal Reply Typed Endpoint.
 Extraction Language OCaml.
 Set Extraction Optimize.
 Extraction "model.ml"
@@ -10,4 +10,5 @@ Extraction "model.ml"
                 all_digits dec_value split_string pieces drop_last_empty to_string
   (* Reply *)   is_positive is_negative is_intermediate default_reply append_all
                 spec_positive spec_text
+  (* Endpoint *) try_parse_pasv_reply try_parse_epsv_reply make_port_command make_eprt_command dotted
   (* Typed *)   parse_size parse_datetime parse_file_list is_time_val spec_file_list.
